@@ -242,9 +242,42 @@ def second_generation(ctx, rng, kind, g, fmt, tmp, cfg, wit):
                 pass
     except Exception as e:
         ctx.note("second-generation-op-generation-failed:" + type(e).__name__)
+    # ... and always one NEW hyperedge sharing a node with an existing one: whatever the loader restored (id counters, incidence
+    # tables) must carry the object on through further edits
+    expected = None
+    try:
+        S_now = observe(g)
+        nk = history.absent_key(rng, cfg, S_now)
+        if nk is not None and KEYS[kind].size(nk) > 0:
+            history.apply_op(g, kind, ("add_edge", {"key": nk, "w": 2 if S_now.weighted else None, "md": {"new": True}}), rng)
+            n_edit += 1
+            expected = S_now.copy()
+            expected.edges[nk] = [2 if S_now.weighted else 1, {"new": True}]
+            for n in KEYS[kind].nodes(nk):
+                expected.nodes.setdefault(n, {})
+    except Exception as e:
+        ctx.note("second-generation-insertion-refused:" + type(e).__name__)
     if not n_edit:
         return
-    G1 = observe(g)
+    P1 = []
+    try:
+        G1 = observe(g, P1)
+    except Exception as e:
+        ctx.check("C06:roundtrip", False, f"C06:{kind}:{fmt}:second-generation:edited-loaded-object-unobservable:{type(e).__name__}", lambda: wit(repr(e)))
+        return
+    if P1:
+        ctx.check("C06:roundtrip", False, f"C06:{kind}:{fmt}:second-generation:edited-loaded-object-inconsistent:" + P1[0], lambda: wit(P1[:4]))
+        return
+    if expected is not None:
+        # the insertion into the loaded object is judged like any insertion: everything else stays, the new hyperedge is there
+        # with its own weight and metadata, and the incidence / degree views agree with the listings
+        ctx.event("second-generation-insertion-judged")
+        df = expected.diff(G1)
+        if not ctx.check("C06:roundtrip", not df, f"C06:{kind}:{fmt}:second-generation:insertion-into-loaded-object:" + ",".join(df),
+                         lambda: wit({"inserted": repr(nk), "expected": expected.describe(), "got": G1.describe()})):
+            return
+        import hgxmon.battery as bat
+        bat.battery(ctx, g, G1, rng, tag=f"C06:{kind}:second-generation", wit=lambda: wit("after inserting " + repr(nk)))
     path = os.path.join(tmp, f"gen2.{fmt}")
     ctx.event("second-generation-roundtrip:" + fmt)
     try:
